@@ -81,7 +81,8 @@ func (c *tinyLFU[K, V]) Access(item *cacheItem[K, V]) {
 // frequency of the item.
 func (c *tinyLFU[K, V]) Admit(item *cacheItem[K, V]) {
 	if c.bypassed() {
-		c.slru.Admit(item)
+		// register the item with the SLRU so Access and Remove can find its parent list
+		c.admitTo(item, &c.slru)
 		return
 	}
 
